@@ -152,9 +152,10 @@ CLAIMED["C16"] = dict(
 
 CLAIMED["C01"] = dict(
     category="proof",
-    text="THE INVARIANT IS PROVED for whole runs of both engines, HISTORY TARGETS INCLUDED: C01_sync_runs_stay_legal_h / C01_async_runs_stay_legal_h - "
-         "for EVERY well-formed machine whose compound states declare a non-history initial child, none of whose transitions targets the machine "
-         "root and whose history pseudo-states have a default target (if any) below their parent (four decidable side conditions), if start() does "
+    text="THE INVARIANT IS PROVED for whole runs of both engines, FOR TRANSITIONS TO ANY STATE (the machine root and history pseudo-states "
+         "included): C01_sync_runs_stay_legal_h / C01_async_runs_stay_legal_h - "
+         "for EVERY well-formed machine whose compound states declare a non-history initial child and whose targeted history pseudo-states have "
+         "a default target (if any) below their parent (four decidable side conditions), if start() does "
          "not fail then after ANY sequence of events the configuration is legal and every remembered history list is the set of proper descendants "
          "of its parent in some legal configuration. Transitions to history states (deep / shallow, recorded / never recorded, domain = the parent or "
          "any ancestor, compound or parallel) are covered by C01_history_transition_preserves_legality: the combined entry path is a tree below the "
@@ -168,8 +169,9 @@ CLAIMED["C01"] = dict(
          "Built from C01_initial_configuration_legal (induction over the default descent), C01_transition_effect (closed formula: configuration "
          "after a transition = before minus the exit list plus the entered set), C01_transition_preserves_legality (a replacement lemma over the "
          "state tree, for compound and parallel domains) and C01_event_preserves_legality (also when a transition aborts: rollback); "
-         "C01_legal_is_the_definition ties the boolean test used everywhere to the property's five clauses. The invariant is REFUTED for the code at "
-         "HEAD for transitions targeting the machine root (C01_invariant_refuted = recorded finding F5). Partial: a history state whose default "
+         "C01_legal_is_the_definition ties the boolean test used everywhere to the property's five clauses. A transition to the machine root "
+         "restarts the machine (C01_root_transition_restarts; former finding F5 - everything exited, nothing entered - is repaired in /repo). "
+         "Partial: a history state whose default "
          "target is not a proper descendant of its parent is outside the theorems and decided by the correspondence (legality evaluated in Coq at "
          "every hook / subscriber / snapshot point of every generated run: exhaustive small trees x all source/target pairs x both engines x pure "
          "API) - which is how the defect repaired by the latest fix: commit (history child of an active parallel state targeted from inside it) was found.",
